@@ -172,3 +172,36 @@ def compare_one(pid, line, mlines, res):
     if res["fate"] != "done" and fo is None:
         return n, {"at": -1, "model": "(history completes)", "impl": "fate=%s" % res["fate"], "why": "implementation did not complete the history"}
     return n, None
+
+
+def crosscheck_extraction(lines, traces, limit=60, timeout=900):
+    """thorough tier: the same histories evaluated by vm_compute INSIDE Coq must give exactly the
+    trace the extracted OCaml program printed (checks the extraction on the paths used).
+    returns dict(checked, ok, log)"""
+    sample = [l for l in lines if hrun.hid(l) in traces][:limit]
+    if not sample:
+        return {"checked": 0, "ok": True, "log": ""}
+    def q(s):
+        return '"' + s.replace('"', '""') + '"'
+    body = ["From Coq Require Import String List.", "From MV Require Import Model.", "Import ListNotations.", "Open Scope string_scope.", ""]
+    for k, l in enumerate(sample):
+        tr = traces[hrun.hid(l)]
+        body.append("Goal run_history %s =\n  [%s].\nProof. vm_compute. reflexivity. Qed.\n" % (q(l), ";\n   ".join(q(t) for t in tr)))
+    d = os.path.join(CACHE, "tmp")
+    os.makedirs(d, exist_ok=True)
+    f = os.path.join(d, "cases_%d.v" % os.getpid())
+    open(f, "w").write("\n".join(body))
+    rc, out = run(["coqc", "-noglob", "-Q", COQ, "MV", f], cwd=d, timeout=timeout)
+    for ext in (".v", ".vo", ".vok", ".vos", ".glob"):
+        try:
+            os.remove(f[:-2] + ext)
+        except OSError:
+            pass
+    return {"checked": len(sample), "ok": rc == 0, "log": out[-1500:] if rc != 0 else ""}
+
+def coqchk(pid, timeout=1500):
+    """thorough tier: independent re-check of the compiled property file and everything it depends on"""
+    rc, out = run(["coqchk", "-silent", "-o", "-Q", COQ, "MV", "MV.Properties.%s" % pid], cwd=COQ, timeout=timeout)
+    m = re.search(r"\* Axioms:\s*(.*?)\n\s*\n|\* Axioms:\s*(.*)$", out, re.S)
+    ax = (m.group(1) or m.group(2) or "").strip() if m else "?"
+    return {"ok": rc == 0, "axioms": ax[:500], "log": out[-800:] if rc != 0 else ""}
